@@ -12,7 +12,8 @@ PROPERTY = "C03"
 LEVEL = "exploration"
 RULE = ("Hypothesis draws 1..6 (quick) / 1..30 (thorough) integer state trajectories of length 0..25 / 0..200 over "
         "1..8 states, lag 1..12, sliding window on/off, max_n_states in {None, observed, observed+extra}, and a "
-        "presentation (RaggedArray, -1-padded rectangular ndarray, permuted order, int32/int64). Oracle: literal "
+        "presentation (RaggedArray, -1-padded rectangular ndarray, permuted order; int8/int16/int32/int64/uint8/uint16 "
+        "elements; one case in five uses a few large state ids up to min(dtype max, 400)). Oracle: literal "
         "double loop over (t, t+lag) pairs per trajectory. A case is non-trivial when it has >=2 trajectories, one "
         "of length <= lag, one of length > 2*lag and at least one transition observed twice; distinct = distinct "
         "canonical JSON of the case. Thorough additionally enumerates every pair of trajectories of length 0..5 "
@@ -54,9 +55,24 @@ def build_input(trajs, how, dtype="int64"):
     raise ValueError(how)
 
 
+DTYPES = ["int64", "int32", "int16", "int8", "uint8", "uint16"]
+
+
 @st.composite
 def count_case(draw, max_traj=6, max_len=25):
-    n_states = draw(st.integers(1, 8))
+    dtype = draw(st.sampled_from(DTYPES))
+    top = int(np.iinfo(dtype).max)
+    wide = draw(st.integers(0, 4)) == 0
+    if wide:
+        # a few distinct, possibly large state ids (up to the dtype's maximum / 400): i*n+j style arithmetic in the
+        # assignments' own dtype would overflow
+        pool = draw(st.lists(st.integers(0, min(top, 400)), min_size=1, max_size=6, unique=True))
+        if draw(st.booleans()):
+            pool.append(min(top, 400))
+        state = st.sampled_from(sorted(set(pool)))
+    else:
+        n_states = draw(st.integers(1, 8))
+        state = st.integers(0, n_states - 1)
     lag = draw(st.integers(1, 12))
     ntraj = draw(st.integers(1, max_traj))
     trajs = []
@@ -71,25 +87,32 @@ def count_case(draw, max_traj=6, max_len=25):
         else:
             L = draw(st.integers(0, max_len))
         L = min(L, max(max_len, 2 * lag + 2))
-        trajs.append(draw(st.lists(st.integers(0, n_states - 1), min_size=L, max_size=L)))
+        trajs.append(draw(st.lists(state, min_size=L, max_size=L)))
     if all(len(t) == 0 for t in trajs):
-        trajs[0] = [draw(st.integers(0, n_states - 1))]
+        trajs[0] = [draw(state)]
     obs = max(max(t) for t in trajs if t) + 1
     mns = draw(st.sampled_from([None, "obs", "extra"]))
     max_n_states = None if mns is None else obs if mns == "obs" else obs + draw(st.integers(1, 3))
+    hows = ["ragged", "padded", "padded_extra"] if not dtype.startswith("u") else ["ragged"]
     return {"trajs": trajs, "lag": lag, "sliding": draw(st.booleans()),
             "max_n_states": max_n_states,
-            "how": draw(st.sampled_from(["ragged", "padded", "padded_extra"])),
-            "dtype": draw(st.sampled_from(["int64", "int32"])),
+            "how": draw(st.sampled_from(hows)),
+            "dtype": dtype, "wide": wide,
             "perm_seed": draw(st.integers(0, 10 ** 6)),
             "split": draw(st.integers(0, ntraj))}
 
 
 def call(trajs, case, how=None):
     how = how or case["how"]
-    x = build_input(trajs, how, case["dtype"])
+    dtype = case["dtype"]
+    if dtype.startswith("u"):
+        how = "ragged"          # unsigned arrays cannot carry the -1 padding
+    x = build_input(trajs, how, dtype)
     if x is None:
-        x = build_input(trajs, "padded", case["dtype"])
+        if dtype.startswith("u"):
+            x = build_input([t for t in trajs if len(t)], "ragged", dtype)   # empty rows simply do not exist
+        else:
+            x = build_input(trajs, "padded", dtype)
     C = assigns_to_counts(x, case["lag"], max_n_states=case["max_n_states"],
                           sliding_window=case["sliding"])
     require(scipy.sparse.issparse(C) or isinstance(C, np.ndarray), "unexpected return type %s" % type(C))
@@ -104,7 +127,8 @@ def info(case):
           and any(len(t) > 2 * lag for t in trajs) and R.max() >= 2)
     cl = ["how=" + case["how"], "sliding=%s" % case["sliding"],
           "mns=%s" % ("None" if case["max_n_states"] is None else "given"),
-          "has_empty_traj=%s" % any(len(t) == 0 for t in trajs),
+          "has_empty_traj=%s" % any(len(t) == 0 for t in trajs), "dtype=" + case["dtype"],
+          "wide_states=%s" % case.get("wide", False),
           "total_zero=%s" % (R.sum() == 0)]
     return Info(nt, cl)
 
@@ -174,7 +198,7 @@ def exhaustive_small(tier, shard, nshards):
                                 continue
                             yield {"trajs": [[pats[p1](i) for i in range(L1)], [pats[p2](i) for i in range(L2)]],
                                    "lag": lag, "sliding": sliding, "max_n_states": 2, "how": how,
-                                   "dtype": "int64", "perm_seed": 0, "split": 1}
+                                   "dtype": "int64", "wide": False, "perm_seed": 0, "split": 1}
     return gen()
 
 
